@@ -17,6 +17,7 @@ EXPLANATION = (
     "and go on using elements of the old collection as atom indices; (Y3) adjacency of atoms must not be inferred from arithmetic on "
     "atom indices (abs(i - j) == 1): atom order is arbitrary.  Rules are generic and run on MoleculeStandardizer (package-wide in "
     "the thorough tier)."
+    ' (Y4) functions that mutate a list argument are only called with a fresh copy; (Y5) the scan over recognised groups stops early only under a test that the rewrite changed the SMILES; (Y6) no textual rewrite (re.sub / str.replace, directly or through a callee) is applied to the SMILES inside the standardiser.'
 )
 ASSUMPTIONS = ["atom indices reported by the functional-group query refer to the SMILES that was queried"]
 
